@@ -180,6 +180,72 @@ func runProperty(id string, spec *propSpec, tier, repo, verif, overlayPath, only
 	extra := map[string]any{"build_constrained_files": cf}
 	os.Setenv("STHLINT_TIER", tier)
 	spec.run(r)
+	// Fallback: what is not discharged on the program as written may be discharged on the equivalent
+	// program in which private helpers are inlined (inline.go). Obligations are merged by key.
+	if os.Getenv("STHLINT_NOINLINE") == "" && unknownBad(r, verif, id) > 0 {
+		r.finalizeCounts()
+		curE, curOv := e, ov
+		for pass := 0; pass < 3 && unknownBad(r, verif, id) > 0; pass++ {
+			ov2, inlined := normaliseHelpers(curE, curOv)
+			if d := os.Getenv("STHLINT_DEBUG_INLINE"); d != "" {
+				fmt.Fprintf(os.Stderr, "inline pass %d: %v\n", pass+1, inlined)
+				for k, v := range ov2 {
+					_ = os.WriteFile(filepath.Join(d, fmt.Sprintf("p%d_%s", pass+1, filepath.Base(k))), v, 0o644)
+				}
+			}
+			if len(inlined) == 0 {
+				break
+			}
+			e2, err := Load(repo, "", ov2)
+			if err != nil {
+				// drop the rewritten files the type checker complains about and try once more
+				dropped := false
+				for k := range ov2 {
+					if _, was := curOv[k]; !was && strings.Contains(err.Error(), k) {
+						delete(ov2, k)
+						dropped = true
+					}
+				}
+				if dropped {
+					e2, err = Load(repo, "", ov2)
+				}
+			}
+			if err != nil {
+				r.Info = append(r.Info, "helper normalisation: inlined program does not type-check ("+err.Error()+"); not used")
+				break
+			}
+			r2 := newReport(e2, id)
+			spec.run(r2)
+			r2.finalizeCounts()
+			if unknownBad(r2, verif, id) == 0 {
+				// everything is discharged on the equivalent program: take that report as a whole
+				r2.Info = append(r.Info, fmt.Sprintf("sthlint: %d obligation(s) were not discharged on the program as written; all obligations are discharged on the behaviour-equivalent program with private helpers inlined (pass %d): %s", unknownBad(r, verif, id), pass+1, strings.Join(inlined, "; ")))
+				r, e = r2, e2
+				break
+			}
+			okKeys := map[string]string{}
+			for _, o := range r2.Obls {
+				if o.OK {
+					okKeys[o.Key] = o.Detail
+				}
+			}
+			n := 0
+			for i := range r.Obls {
+				if !r.Obls[i].OK {
+					if d, ok := okKeys[r.Obls[i].Key]; ok {
+						r.Obls[i].OK = true
+						r.Obls[i].Path = ""
+						r.Obls[i].Detail = "discharged on the behaviour-equivalent program with private helpers inlined (not on the program as written): " + d
+						n++
+					}
+				}
+			}
+			if n > 0 {
+				r.Info = append(r.Info, fmt.Sprintf("sthlint: helper normalisation pass %d discharged %d obligation(s); inlined: %s", pass+1, n, strings.Join(inlined, "; ")))
+			}
+			curE, curOv = e2, ov2
+		}
+	}
 
 	if tier == "thorough" {
 		// (i) same rules with the CHA call graph (a superset of VTA)
@@ -287,4 +353,31 @@ func runProperty(id string, spec *propSpec, tier, repo, verif, overlayPath, only
 	}
 	return r.finish(runMeta{Tier: tier, Seed: seed, Start: start, VerifDir: verif, Extra: extra,
 		Assumptions: spec.assumptions, Explanation: spec.explanation, Trusted: trustedBase})
+}
+
+// unknownBad counts the obligations of r that are neither discharged nor listed
+// as known findings, including instance-count obligations (on a copy).
+func unknownBad(r *Report, verif, id string) int {
+	cp := *r
+	cp.Obls = append([]Obligation{}, r.Obls...)
+	cp.keys = map[string]int{}
+	for k, v := range r.keys {
+		cp.keys[k] = v
+	}
+	cp.finalizeCounts()
+	known := map[string]bool{}
+	if fs, err := loadFindings(verif); err == nil {
+		for _, f := range fs {
+			if f.Status == "known" && f.Property == id {
+				known[f.Key] = true
+			}
+		}
+	}
+	n := 0
+	for _, o := range cp.Obls {
+		if !o.OK && !known[o.Key] {
+			n++
+		}
+	}
+	return n
 }
